@@ -143,7 +143,7 @@ Definition chal_ok (ch : challenge) (ver : string) : bool :=
 
 (* the tokens of a code exchange carry subject, client, scopes and nonce of request q *)
 Definition carries (q : areq) (t : tokresp) : bool :=
-  (negb (string_in "openid" (q_scopes q)) || String.eqb (t_sub t) (q_sub q))   (* id_token, when one was asked for *)
+  String.eqb (t_sub t) (q_sub q)                                                (* id_token *)
   && String.eqb (t_at_sub t) (q_sub q)
   && String.eqb (t_azp t) (q_client q) && string_in (q_client q) (t_aud t)
   && strs_eqb (t_scope t) (q_scopes q) && String.eqb (t_nonce t) (q_nonce q)
@@ -210,7 +210,7 @@ Definition c07_ok (g : ledger) (o : op) (x : out) : bool :=
                          else negb (Nat.eqb m n) && match g_rt g m with None => true | Some _ => false end
              | None => false
              end
-          && (negb (string_in "openid" (t_scope t)) || String.eqb (t_sub t) (r_sub r))
+          && String.eqb (t_sub t) (r_sub r)       (* the id_token keeps the subject, whatever the narrowed scope *)
           && String.eqb (t_at_sub t) (r_sub r)
           && strs_eqb (t_aud t) (r_aud r) && String.eqb (t_azp t) (r_client r)
           && Nat.eqb (t_auth t) (r_auth r)
